@@ -46,12 +46,18 @@ def lexeme(name):
     return "@"
 
 
-def realise(names, sep=" "):
+# different shapes of lexical Error tokens (multi-byte, ending in a line break, multi-char)
+ERROR_VARIANTS = ["\u00e9", "\"s\n", "..", "!zz", "#define\n"]
+
+
+def realise(names, sep=" ", error_lexeme=None):
     """text whose token-kind sequence contains `names` in order (whitespace is added between
     tokens so that adjacent lexemes do not merge)"""
     out = []
     for n in names:
         lx = lexeme(n)
+        if n == "Error" and error_lexeme is not None:
+            lx = error_lexeme
         if lx == "":
             continue
         out.append(lx)
@@ -69,6 +75,7 @@ BATTERY = [
     "multiclass m",
     "class",
     "def X { int a = \u00e9; } \u2192 \U0001F600",
+    "class A;\n\"abc\nclass X;\n", "class A;\n#define\nclass X;", "class X;\n#ifdef\n", "x [{ abc\n", "a\n#ifndef\n",
     "\u20ac",
 ]
 
